@@ -179,6 +179,7 @@ def run(ctx: Ctx) -> None:
     rule_inverse_blocks(ctx)
     from ..rules import memo as _memo
     _memo.rule_memo_sound(ctx, ['graphiq/backends/stabilizer/functions/metric.py', 'graphiq/backends/stabilizer/functions/stabilizer.py', 'graphiq/backends/stabilizer/tableau.py', 'graphiq/backends/stabilizer/clifford_tableau.py'])
+    _memo.rule_falsy_zero(ctx, ['graphiq/backends/stabilizer/functions/metric.py', 'graphiq/backends/stabilizer/functions/stabilizer.py', 'graphiq/backends/stabilizer/tableau.py', 'graphiq/backends/stabilizer/clifford_tableau.py'])
     rule_eq_fields(ctx)
     tableau.rule_rowops(ctx)
     tableau.rule_phase_combine(ctx)
